@@ -41,7 +41,17 @@ fn peer(i: u64) -> PeerId {
 fn abs_peer(p: &PeerId) -> i64 {
     (0..64).find(|i| &peer(*i) == p).map(|i| i as i64).unwrap_or(-1)
 }
+thread_local! {
+    /// key 3 of a run with routing-table peers: the bytes of the first such peer's id, so that the record key and
+    /// that peer have the SAME position in the key space (distance to the local node equal, not just close)
+    static KEY3: std::cell::RefCell<Option<Vec<u8>>> = const { std::cell::RefCell::new(None) };
+}
 fn key(k: u64) -> RecordKey {
+    if k == 3 {
+        if let Some(b) = KEY3.with(|c| c.borrow().clone()) {
+            return RecordKey::new(&b);
+        }
+    }
     RecordKey::new(&[b'k', k as u8])
 }
 fn abs_key(k: &RecordKey) -> i64 {
@@ -141,6 +151,7 @@ impl Rig {
         };
         let mut b = Behaviour::with_config(peer(0), MemoryStore::with_config(peer(0), sc), cfg);
         let rt: Vec<u64> = s["rt"].as_array().map(|v| v.iter().filter_map(|x| x.as_u64()).collect()).unwrap_or_default();
+        KEY3.with(|c| *c.borrow_mut() = rt.first().map(|i| peer(*i).to_bytes()));
         for i in &rt {
             b.add_address(&peer(*i), addr_of(*i));
         }
